@@ -29,6 +29,8 @@ def rational(v) -> sp.Expr:
         return sp.Integer(v)
     if isinstance(v, float):
         return sp.Rational(repr(v)) if v == v and abs(v) != float("inf") else sp.nan
+    if isinstance(v, complex):
+        return rational(v.real) + sp.I * rational(v.imag)
     raise AnalysisError(f"cannot translate constant {v!r}")
 
 
